@@ -5520,7 +5520,20 @@ impl<'a, 'graph> Builder<'a, 'graph> {
     let maybe_range = options.maybe_range;
     let maybe_source_phase_referrer = options.maybe_source_phase_referrer;
     let original_specifier = specifier;
-    let specifier = self.graph.redirects.get(specifier).unwrap_or(specifier);
+    // follow every redirect recorded so far up to a specifier that has an
+    // entry (bounded in case of a cycle), otherwise a specifier whose pending
+    // slot was dropped by a redirect is loaded again and again when a chain
+    // leads back to a loaded module
+    let mut specifier = specifier;
+    for _ in 0..=self.graph.redirects.len() {
+      if self.graph.module_slots.contains_key(specifier) {
+        break;
+      }
+      match self.graph.redirects.get(specifier) {
+        Some(redirected) => specifier = redirected,
+        None => break,
+      }
+    }
     if options.is_asset {
       // TODO(nayeemrmn): We need to load the module to validate the actual
       // media type for source-phase-import eligibility. Don't treat
